@@ -81,3 +81,23 @@ pub mod bm_mock {
     pub fn f<D: DepA>(deps: &D, x: u8) {}
     pub fn g<D: DepB>(deps: &D, y: u8) {}
 }
+
+// by-value deps anywhere in a module: `T: Send` is required exactly when SOME method takes self by value
+#[entrait(pub BMValueLast)]
+pub mod bm_value_last {
+    use super::*;
+    pub fn r1<D: DepA>(deps: &D) {}
+    pub fn r2(deps: &impl DepB) {}
+    pub fn v<D: DepA>(deps: D) {}
+}
+#[entrait(pub BMValueMiddle, ?Send)]
+pub mod bm_value_middle {
+    use super::*;
+    pub fn r1<D: DepA>(deps: &D) {}
+    pub fn v(deps: impl DepB) {}
+    pub fn r2<D>(deps: &D) {}
+}
+#[entrait(BValueNoSend, ?Send)]
+fn b_value_no_send(deps: impl DepA) {}
+#[entrait(BValueNoSendAsync, ?Send)]
+async fn b_value_no_send_async<D: DepA>(deps: D) {}
